@@ -370,3 +370,27 @@ def wf_win(rng):
     eol = rng.choice(["\r\n", "\n", "", "\r", "\n\r\n"])
     line = d + " " + tm + " " + ap + "M" + " " * rng.randint(1, 6) + col + " " * rng.randint(1, 10) + name + eol
     return (d, tm, ap, col, name), line
+
+
+# ----------------------------------------------------------------------------- complexity bait ("never hangs")
+# Inputs on which a backtracking matcher with a careless pattern explodes: long runs of one character class that ALMOST match and
+# then fail at the very end (unclosed parenthesis / quote, wrong terminator), runs with optional separators, nested openers.
+def bait(rng, family):
+    k = rng.choice([28, 40, 64, 120, 400])
+    unit = rng.choice(["1", "0", "9", "12", "1,", ",", "1,1", "٣", " ", "|", "(", ")", "((", "()", '"', '""', "a", "1|", "|1", ".", "1 ", "M", " -> "])
+    if any(ch.isdigit() for ch in unit):
+        k = min(k, 64 // len(unit) + 1)  # numbers stay below ~64 digits: the extracted model prints integers with schoolbook division
+    run = unit * k
+    opener = {"pasv": ["(", "((", "x(", "Entering Passive Mode ("], "epsv": ["(|||", "(", "(111", "(|||1|)(|||", "((("],
+              "dir": ['"', '""', 'x"', '"a""'], "line": ["", "-rw-r--r-- 1 o g 1 ", "10/27/2016  06:02 PM ", "type=file;"]}[family]
+    closer = ["", "x", " )", ".", ";", "|", "| )", '" ', "\t", ")x(", "(", "!"]
+    return rng.choice(opener) + run + rng.choice(closer)
+
+
+BAIT_FIXED = {
+    "pasv": [" (" + "1" * 30, " (" + "1" * 64, " (" + "1" * 64 + " )", " (" + "1," * 40 + "x", " (" + "1" * 40 + ",", " Entering Passive Mode (" + "9" * 64 + ".",
+             " (" + "(" * 200, " " + "(" * 300 + ")" * 300, " (" + "1,1" * 60 + "a)", " (" + "," * 500, " (" + "1 " * 80],
+    "epsv": [" (|||" + "1" * 64, " (|||" + "1" * 64 + "x)", " (111" + "1" * 80, " (" + "|" * 300, " " + "(|||1|" * 100, " (" + "1" * 60 + ")", " ((((" * 100,
+             " (|||" + "٣" * 100 + "x"],
+    "dir": [' "' + '"' * 301, ' "' + 'a""' * 200, ' ' + '"' * 1000, ' "' + "a" * 5000, ' "' + '""' * 500 + "x"],
+}
